@@ -111,26 +111,32 @@ struct Array {
             return;
         }
 
+        // Take the source's storage first: the source can be stored inside one of this array's items,
+        // and growing relocates the items.
+        Type_T     *src_storage  = src.Storage();
+        const SizeT src_size     = src.Size();
+        const SizeT src_capacity = src.Capacity();
+
+        src.clearStorage();
+        src.setSize(0);
+        src.setCapacity(0);
+
         if (Capacity() == 0) {
-            setStorage(src.Storage());
-            setSize(src.Size());
-            setCapacity(src.Capacity());
+            setStorage(src_storage);
+            setSize(src_size);
+            setCapacity(src_capacity);
         } else {
             constexpr SizeT32 type_size = sizeof(Type_T);
-            const SizeT       n_size    = (Size() + src.Size());
+            const SizeT       n_size    = (Size() + src_size);
 
             if (n_size > Capacity()) {
                 resize(n_size);
             }
 
-            Memory::Copy((Storage() + Size()), src.Storage(), (src.Size() * type_size));
-            Memory::Deallocate(src.Storage());
+            Memory::Copy((Storage() + Size()), src_storage, (src_size * type_size));
+            Memory::Deallocate(src_storage);
             setSize(n_size);
         }
-
-        src.clearStorage();
-        src.setSize(0);
-        src.setCapacity(0);
     }
 
     void operator+=(const Array &src) {
